@@ -165,20 +165,23 @@ Owner(stack) == stack[OwnerIdx(stack)]
 EnvU(raw, m) == [vals |-> Owner(m.stack).vals, raw |-> raw, cur |-> m.cur]
 CurFieldOf(dp, fr) == dp[fr.cls].fields[fr.idx]
 
+\* the name under which a field is listed (a described field is listed under its hidden name)
+ListedName(f) == IF f.k = "Int" /\ f.desc.kind # "none" THEN "_described_" \o f.name ELSE f.name
+
 FailU(m) == [m EXCEPT !.st = "unwind"]
 
 \* one frame per step, innermost first; only packet frames contribute an entry
 UnwindU(dp, m) ==
     LET fr == Top(m.stack)
         e  == IF fr.kind = "pkt"
-              THEN Append(m.err, [off |-> fr.fstart, name |-> CurFieldOf(dp, fr).name, cls |-> fr.cls])
+              THEN Append(m.err, [off |-> fr.fstart, name |-> ListedName(CurFieldOf(dp, fr)), cls |-> fr.cls])
               ELSE m.err
     IN [m EXCEPT !.stack = Pop(m.stack), !.err = e,
                  !.st = IF Len(m.stack) = 1 THEN "fail" ELSE "unwind"]
 
 \* the owner packet frame finished its current field (value already stored)
 Advance(fr, cur) == [fr EXCEPT !.idx = @ + 1, !.fstart = cur]
-Event(dp, fr, cur) == [cls |-> fr.cls, name |-> CurFieldOf(dp, fr).name, b |-> fr.fstart, e |-> cur]
+Event(dp, fr, cur) == [cls |-> fr.cls, name |-> ListedName(CurFieldOf(dp, fr)), b |-> fr.fstart, e |-> cur]
 
 CondTruth(spec, env) ==      \* [ok, b]
     LET r == EvalSpec(spec, env) IN [ok |-> r.ok, b |-> r.ok /\ Truth(r.v)]
@@ -348,7 +351,7 @@ UnwindP(dp, p) ==
     LET fr == Top(p.stack)
         e  == IF fr.kind = "pkt"
               THEN Append(p.err, [off |-> p.frag.cur,
-                                  name |-> IF fr.idx <= Len(dp[fr.cls].fields) THEN CurFieldOf(dp, fr).name ELSE "?",
+                                  name |-> IF fr.idx <= Len(dp[fr.cls].fields) THEN ListedName(CurFieldOf(dp, fr)) ELSE "?",
                                   cls |-> fr.cls])
               ELSE p.err
     IN [p EXCEPT !.stack = Pop(p.stack), !.err = e, !.st = IF Len(p.stack) = 1 THEN "fail" ELSE "unwind"]
@@ -368,7 +371,7 @@ PDone(dp, p) ==
     LET fr == Top(p.stack) IN
     IF fr.kind = "pkt"
     THEN [p EXCEPT !.stack = SetTop(@, [fr EXCEPT !.idx = @ + 1]),
-                   !.evs = Append(@, [cls |-> fr.cls, name |-> CurFieldOf(dp, fr).name, e |-> p.frag.cur])]
+                   !.evs = Append(@, [cls |-> fr.cls, name |-> ListedName(CurFieldOf(dp, fr)), e |-> p.frag.cur])]
     ELSE [p EXCEPT !.stack = SetTop(@, [fr EXCEPT !.i = @ + 1])]
 
 RECURSIVE PackValue(_, _, _, _)
